@@ -549,7 +549,7 @@ class Discharger:
         inlined into the caller and the copy of the site is decided there (dischargers, or the reviewed entry the caller
         has for exactly this computation - the situation after an extract-function refactoring).  Every caller must
         settle it; a helper that is public, used as a function value or called from nowhere is not handled."""
-        if getattr(self, '_in_via', False) or fn.kind != 'fn' or fn.raw.get('pub', True) or getattr(fn, 'inlined', None):
+        if getattr(self, '_in_via', False) or fn.kind not in ('fn', 'method') or fn.raw.get('pub', True) or getattr(fn, 'inlined', None):
             return None
         idx, refs = self._call_index()
         if fn.path in refs:
